@@ -196,6 +196,55 @@ proof fn lemma_or_covers(old_b: Block, new_b: Block, x: u32)
     }
 }
 
+// ---------------------------------------------------------------- building the filter at seal time
+// `vec![Block::default(); size.try_into().unwrap()]`
+#[verifier::external_body]
+fn zero_blocks(n: u32) -> (r: Vec<Block>)
+    ensures r@.len() == n,
+{ unimplemented!() }
+
+impl Filter {
+//@ extract sst/src/sbbf.rs | impl Filter :: fn new
+//@ ret r
+//@ rewrite X7 `let blocks = vec![Block::default(); size.try_into().unwrap()];` => `let blocks = zero_blocks(size);`
+//@ post <<
+        r.wf(),
+//@ >>
+//@ bodystart <<
+        proof {
+            let s7 = if size as int + 7 > 0xffff_ffff { 0xffff_ffffu32 } else { (size + 7) as u32 };
+            assert(((s7 >> 3) >> 5) <= 0x00ff_ffff) by (bit_vector);
+        }
+//@ >>
+//@ end
+}
+
+// only what the region below touches
+struct SstOptionsBloom { bloom_filter_bits: u8 }
+struct SealingBuilder { filter: Vec<u64>, options: SstOptionsBloom }
+
+// SstBuilder::seal builds the bloom filter from the hashes queued by put/del: every queued hash is found afterwards
+// (with unit sst_builder -- every accepted key's hash is queued -- the filter never hides a key of the table)
+//@ extract sst/src/lib.rs | impl Builder for SstBuilder :: fn seal
+//@ region `let mut filter = Filter::new(` .. `while fi < builder.filter.len() {`
+//@ region-sig <<
+fn seal_filter(builder: &SealingBuilder) -> (r: Filter)
+//@ >>
+//@ region-tail <<
+    filter
+//@ >>
+//@ rewrite X13 `for x in builder.filter.iter() {` => `let mut fi: usize = 0; while fi < builder.filter.len() { let x = &builder.filter[fi]; fi = fi + 1;`
+//@ post <<
+        r.wf(), forall|i: int| 0 <= i < builder.filter@.len() ==> r.has(#[trigger] builder.filter@[i]),
+//@ >>
+//@ loop 0 <<
+        invariant
+            filter.wf(), fi <= builder.filter@.len(),
+            /* contract-inv */ forall|i: int| 0 <= i < fi ==> filter.has(#[trigger] builder.filter@[i]),
+        decreases builder.filter@.len() - fi,
+//@ >>
+//@ end
+
 //@ contract-lemma lemma_or_covers
 //@ min-verified 8
 } // verus!
